@@ -342,11 +342,9 @@ theorem batches (ext : Ext) (fields : List Field) (r0 : B) (h0 : newRoot fields 
 
 /-- **batches (content).** For covered schemas and records without raw call streams: build k sees a root whose
 rows are exactly `interpRow` of the records added since build k-1, in order (a 0-row build sees no rows), and
-returns `finishFields` of that state; the builder continues from the fresh builder.
-`NoView r0` (the schema has no Utf8View/BinaryView column; a property of the fresh root like `Safe r0`): R2 covers
-view builders only while their buffers stay below 4 GiB (`ViewSmall`), which is automatic without view columns. -/
+returns `finishFields` of that state; the builder continues from the fresh builder. -/
 theorem batches_interp (ext : Ext) (fields : List Field) (r0 : B) (hc : fields.all coveredF = true)
-    (h0 : newRoot fields = .ok r0) (hsafe : Safe r0) (hnv : NoView r0)
+    (h0 : newRoot fields = .ok r0) (hsafe : Safe r0)
     (ops : List Op) (hraw : OpsOK (fun x => noRaw x = true) ops) (outs : List (B × List Arr)) (fin : B)
     (h : run ext r0 ops = .ok (outs, fin)) :
     All2 (fun (out : B × List Arr) rows =>
@@ -360,9 +358,7 @@ theorem batches_interp (ext : Ext) (fields : List Field) (r0 : B) (hc : fields.a
     intro b b' x hw hs ht hraw hp
     have hsh : Shape b (.struct (Fields.ofList fields)) false [] :=
       Shape.of_takeRest (ht.trans hfresh.2.2.symm) hshape
-    have hsm : Lemmas.C03.ViewSmall b' :=
-      NoView.small b' (NoView.of_takeRest ((push_takeRest ext x b b' hp).trans (ht.trans hfresh.2.2.symm)) hnv)
-    obtain ⟨_, _, _, lv, hd, hi⟩ := C01.push_interp ext x b b' _ _ _ hraw hw hs hsh hp hsm
+    obtain ⟨_, _, _, lv, hd, hi⟩ := C01.push_interp ext x b b' _ _ _ hraw hw hs hsh hp
     exact ⟨lv, hd, hi⟩) fields h0 hsafe ops r0 [] outs fin
     ⟨hfresh.1, hsafe, hfresh.2.2, by rw [hfresh.2.1]; exact All2.nil⟩ hraw h
   refine All2.imp ?_ this
